@@ -123,7 +123,7 @@ func KnownSigs(property string) map[string]bool {
 
 func loadKnown() *known {
 	k := &known{}
-	b, err := os.ReadFile("/verif/known_findings.json")
+	b, err := os.ReadFile(Home() + "/known_findings.json")
 	if err != nil {
 		return k
 	}
@@ -132,6 +132,15 @@ func loadKnown() *known {
 		os.Exit(2)
 	}
 	return k
+}
+
+// Home is the verification directory (the scripts export VERIF_HOME so that a snapshot
+// of the directory works from where it is).
+func Home() string {
+	if h := os.Getenv("VERIF_HOME"); h != "" {
+		return h
+	}
+	return "/verif"
 }
 
 func Main(spec *Spec) {
@@ -465,14 +474,14 @@ func finish(spec *Spec, tier string, seed int, start time.Time, jobs []Job, resu
 	for _, s := range sigs {
 		fmt.Printf("KNOWN-FINDING: property=%s %s [%s]\n", spec.Property, knownHit[s], s)
 	}
-	_ = os.MkdirAll("/verif/replays", 0o755)
-	if old, _ := filepath.Glob(fmt.Sprintf("/verif/replays/%s-*.json", spec.Property)); old != nil {
+	_ = os.MkdirAll(Home()+"/replays", 0o755)
+	if old, _ := filepath.Glob(fmt.Sprintf(Home()+"/replays/%s-*.json", spec.Property)); old != nil {
 		for _, f := range old {
 			_ = os.Remove(f)
 		}
 	}
 	for i, v := range fresh {
-		path := fmt.Sprintf("/verif/replays/%s-%d.json", spec.Property, i)
+		path := fmt.Sprintf(Home()+"/replays/%s-%d.json", spec.Property, i)
 		b, _ := json.MarshalIndent(map[string]any{"property": spec.Property, "signature": v.Sig, "message": v.Msg, "job": v.Job, "replay": v.Replay}, "", " ")
 		_ = os.WriteFile(path, b, 0o644)
 		fmt.Printf("VIOLATION property=%s replay=%s\n", spec.Property, path)
@@ -514,8 +523,8 @@ func finish(spec *Spec, tier string, seed int, start time.Time, jobs []Job, resu
 		"violations":  len(fresh),
 	}
 	b, _ := json.MarshalIndent(ev, "", " ")
-	_ = os.MkdirAll("/verif/evidence", 0o755)
-	if err := os.WriteFile(filepath.Join("/verif/evidence", spec.Property+".json"), b, 0o644); err != nil {
+	_ = os.MkdirAll(Home()+"/evidence", 0o755)
+	if err := os.WriteFile(filepath.Join(Home()+"/evidence", spec.Property+".json"), b, 0o644); err != nil {
 		fmt.Fprintf(os.Stderr, "cannot write evidence: %v\n", err)
 		os.Exit(2)
 	}
@@ -607,8 +616,8 @@ func startWorker(tier, only string, deadline time.Time) (*workerProc, error) {
 		args = append(args, "-only", only)
 	}
 	cmd := exec.Command(self, args...)
-	_ = os.MkdirAll("/verif/.ov", 0o755)
-	tf, err := os.CreateTemp("/verif/.ov", "trace.*")
+	_ = os.MkdirAll(Home()+"/.ov", 0o755)
+	tf, err := os.CreateTemp(Home()+"/.ov", "trace.*")
 	if err != nil {
 		return nil, err
 	}
